@@ -190,7 +190,8 @@ class C19(Prop):
     def finding_predicates(self):
         return {
             "C19/single-order": lambda p: len(p.case["orders"]) == 1,
-            "C19/grey-nonempty": lambda p: len(p.detail.get("grey", [])) > 0,
+            # the committed corpus lists grey inputs on which the pinned tree is right: those stay enforced
+            "C19/grey-nonempty": lambda p: len(p.detail.get("grey", [])) > 0 and not p.case.get("pinned_ok"),
         }
 
     def judge(self, case, obs, replies):
@@ -238,6 +239,8 @@ class C19(Prop):
         return out
 
     def shrink_candidates(self, case):
+        if case.get("pinned_ok"):
+            return        # a regression-corpus case is reported as it is
         os_ = case["orders"]
         for i in range(len(os_)):
             if len(os_) > 1:
